@@ -57,6 +57,7 @@ type world struct {
 	commits     int
 	crashes     int
 	crashBudget int
+	stopKinds   bool // stops other than kills are on the menu (props knob stop_kinds != 0)
 	lossPct     int
 	dupPct      int
 	partOn      bool
@@ -288,7 +289,7 @@ func (w *world) effect(nd *node, r *req) {
 		if w.inTail && nd.dur.last >= w.goal {
 			// the validator has completed the goal height of the run: the harness stops it (not a crash)
 			c.Logf("n%d reached the goal height %d: stopped", nd.idx, w.goal)
-			nd.stop()
+			nd.stopJudged("goal_height_reached")
 			nd.retired = true
 			w.dropFlightsTo(nd.idx)
 			return
@@ -301,10 +302,14 @@ func (w *world) effect(nd *node, r *req) {
 		if a.count > 0 {
 			a.count--
 		} else if a.after {
-			nd.arm, nd.killNext = nil, true
+			nd.arm, nd.killNext, nd.killHow = nil, true, a.how
 		} else {
 			if !inc.listening {
 				c.Probe("net.crash_during_recovery")
+			}
+			if a.how != stopKill {
+				nd.windDown(r, a.how, "before", true)
+				return
 			}
 			nd.kill(r, a.during, "before")
 			return
@@ -329,7 +334,11 @@ func (w *world) settle() {
 				if !nd.inc.listening {
 					w.c.Probe("net.crash_during_recovery")
 				}
-				nd.kill(nd.inc.takeParked(), false, "after its previous effect,")
+				if nd.killHow == stopGracefulCancel {
+					nd.windDown(nd.inc.takeParked(), stopGracefulCancel, "after its previous effect,", false)
+				} else {
+					nd.kill(nd.inc.takeParked(), false, "after its previous effect,")
+				}
 				progressed = true
 				break
 			}
@@ -500,13 +509,30 @@ func (w *world) armCrash() bool {
 	case 6:
 		a.count = t.Draw("crash_count", 4)
 	default:
-		c.Logf("crash of n%d now (idle)", nd.idx)
 		w.faultsSeen = true
+		if w.stopKinds && t.Draw("idle_stop_how", 2) == 1 {
+			c.Logf("graceful stop of n%d now (idle)", nd.idx)
+			nd.windDown(nil, stopGracefulCancel, "while idle,", false)
+			return true
+		}
+		c.Logf("crash of n%d now (idle)", nd.idx)
 		nd.kill(nil, false, "while idle,")
 		return true
 	}
 	if !a.during {
 		a.after = t.Draw("crash_after", 2) == 1
+	}
+	// how the process stops there: killed, or one of the stops in which Run returns and the store is closed
+	if w.stopKinds && !a.during {
+		switch t.Draw("stop_how", 4) {
+		case 2:
+			a.how = stopGracefulCancel
+		case 3:
+			a.how = stopGracefulCancel
+			if a.kind == efCommit && !a.after {
+				a.how = stopListenerFailure
+			}
+		}
 	}
 	nd.arm = a
 	w.faultsSeen = true
@@ -514,7 +540,7 @@ func (w *world) armCrash() bool {
 	if a.kind >= 0 {
 		kind = efName[a.kind]
 	}
-	c.Logf("crash of n%d planned: %s #%d after=%v inside=%v", nd.idx, kind, a.count, a.after, a.during)
+	c.Logf("crash of n%d planned: %s #%d after=%v inside=%v how=%s", nd.idx, kind, a.count, a.after, a.during, stopName[a.how])
 	return true
 }
 
@@ -859,7 +885,7 @@ func (w *world) cleanup() {
 // C13 is one simulated run of the network of drivers.
 func C13(c *sim.Ctx) {
 	t := c.T
-	w := &world{c: c, byz: -1, fs: newMountFS(), t0: time.Now()}
+	w := &world{c: c, byz: -1, fs: newMountFS(), t0: time.Now(), stopKinds: c.Knobs["stop_kinds"] != "0"}
 	// ---- configuration (one early draw decides the class of the run)
 	cls := t.Draw("class", 16)
 	w.n = 4
@@ -931,6 +957,11 @@ func C13(c *sim.Ctx) {
 		w.chaos(steps, capH)
 	}
 	w.tail(extra)
+	for _, nd := range w.nodes {
+		if nd.up() {
+			nd.stopJudged("end_of_run")
+		}
+	}
 
 	all := true
 	for _, nd := range w.correct() {
